@@ -821,7 +821,10 @@ func (as *AbacoSource) distributePackets(allpackets []*packets.Packet, now time.
 		}
 
 		cidx := gIndex(p)
-		grp := as.groups[cidx]
+		grp, ok := as.groups[cidx]
+		if !ok {
+			continue // not one of the channel groups seen at start-up (e.g. a malformed datagram): ignore
+		}
 		grp.enqueuePacket(p, now)
 		grp.updateFrameTiming(p, as.nextFrameNum)
 	}
